@@ -3,6 +3,8 @@
 using namespace c05;
 
 std::string handle(const std::string& op, const Args& a) {
+    if (op == "slice2")   // slice2 shape=<src> sl=<first index> sl2=<second index>: a[sl][sl2] through two nested views
+        return run_slice2(nats(a, "shape"), parse_slices(get(a, "sl")), parse_slices(get(a, "sl2")));
     if (op != "slice") return "unknown-op";
     auto enc = get(a, "enc"); auto level = get(a, "level");
     auto src = nats(a, "shape"); auto es = parse_slices(get(a, "sl"));
